@@ -122,7 +122,7 @@ def build_history(ex, variant):
     'two': an older closed band (with an entry sorting after everything in the newer one) and a newer band that is closed or
     still open (solver-chosen), each with a block of its own."""
     st, ar = A.new_archive(ex)
-    sz = {k: ex.fresh_int('size' + k, 1, 1 << 20) for k in 'ABCZ'}
+    sz = {k: ex.fresh_int('size' + k, 1, 1 << 20) for k in 'ABCZMN'}
     blk = {}
 
     def block(k, cls):
@@ -135,6 +135,16 @@ def build_history(ex, variant):
                                    A.mk_entry(ex, '/a2', 'File', 2, addrs=[A.mk_addr(ex, blk['A'], 0, sz['A'])], mode=0o644)])
         A.put_hunk(ex, st, 0, 1, [A.mk_entry(ex, '/b', 'File', 3, addrs=[block('B', 2)], mode=0o600)])
         A.put_tail(ex, st, 0, 2)
+    elif variant == 'multi':
+        # a file stored in two blocks next to a single-block file
+        m1 = A.put_block(ex, st, Data([(5, 0, sz['M'])]))
+        m2 = A.put_block(ex, st, Data([(5, sz['M'], sz['N'])]))
+        blk['M'], blk['N'] = m1, m2
+        A.put_head(ex, st, 0)
+        A.put_hunk(ex, st, 0, 0, [root(), A.mk_entry(ex, '/a', 'File', 2, addrs=[block('A', 1)], mode=0o644),
+                                   A.mk_entry(ex, '/m', 'File', 4, addrs=[A.mk_addr(ex, m1, 0, sz['M']), A.mk_addr(ex, m2, 0, sz['N'])], mode=0o644)])
+        A.put_tail(ex, st, 0, 1)
+        ex.env['hist_sizes'] = sz
     else:
         A.put_head(ex, st, 0)
         A.put_hunk(ex, st, 0, 0, [root(), A.mk_entry(ex, '/a', 'File', 2, addrs=[block('A', 1)], mode=0o644),
@@ -280,9 +290,15 @@ def make_contained(prog, op, variant='single'):
                             if not errs:
                                 out['problems'].append('%s of band %d was lost or altered by the damage but no error was reported' % (p, b))
             elif op == 'backup':
-                tree = B.SourceTreeV([B.SrcFile('/', 'Dir', mtime=B.TimeV(1, 0), mode=0o755),
-                                      B.SrcFile('/a', 'File', cls=1, size=10, mtime=B.TimeV(2, 0), mode=0o644),
-                                      B.SrcFile('/b', 'File', cls=2, size=12, mtime=B.TimeV(3, 0), mode=0o600)])
+                if variant == 'multi':
+                    hs = ex.env['hist_sizes']
+                    tree = B.SourceTreeV([B.SrcFile('/', 'Dir', mtime=B.TimeV(1, 0), mode=0o755),
+                                          B.SrcFile('/a', 'File', cls=1, size=hs['A'], mtime=B.TimeV(2, 0), mode=0o644),
+                                          B.SrcFile('/m', 'File', cls=5, size=hs['M'] + hs['N'], mtime=B.TimeV(4, 0), mode=0o644)])
+                else:
+                    tree = B.SourceTreeV([B.SrcFile('/', 'Dir', mtime=B.TimeV(1, 0), mode=0o755),
+                                          B.SrcFile('/a', 'File', cls=1, size=10, mtime=B.TimeV(2, 0), mode=0o644),
+                                          B.SrcFile('/b', 'File', cls=2, size=12, mtime=B.TimeV(3, 0), mode=0o600)])
                 r = B.run_backup(ex, ar, tree, B.backup_options(ex, 1000, 1 << 21, 0))
                 out['result'] = r[0] if r[0] == 'ok' else 'Err:' + variant_name(ex, r[1])
                 out['errors'] = [variant_name(ex, e) for e in ex.env['monitor'].errors][:4]
@@ -310,7 +326,8 @@ def make_contained(prog, op, variant='single'):
                 res['bad'].append({'kind': 'problem', 'op': op, 'target': out['target'], 'path': out['path'], 'how': out['how'],
                                    'problems': out['problems'][:4], 'result': out.get('result'), 'errors': out.get('errors'),
                                    'quick': out.get('quick'), 'variant': variant, 'band': out.get('band'),
-                                   'newest_closed': (B.model_values(ex.E.check()[1]) or {}).get('newest_closed')})
+                                   'newest_closed': (B.model_values(ex.E.check()[1]) or {}).get('newest_closed'),
+                                   'sizes': {k: v for k, v in (B.model_values(ex.E.check()[1]) or {}).items() if k.startswith('size')}})
             elif len(res['samples']) < 2 and out.get('harmful'):
                 res['samples'].append({'op': op, 'outcome': {k: v for k, v in out.items() if k != 'problems'}})
         return h, on_path, res
